@@ -20,8 +20,8 @@ from common import Case, Failure, clist, parse_clist, flist, parse_flist, call, 
 import ar_fam
 
 PID = 'C10'
-LEAN_TARGETS = ['Nitime.Props.C10']
-RULE = ('round 2: refused / failing calls of every entry point on the same argument objects followed by the ordinary calls against fresh copies (L7), programs of estimator calls with refused calls in between (op seqe), x is rxx, the returned coefficient view consumed by AR_psd / ar_generator (L8); session 3: every entry point also on integer (int16/int32/int64), float32, complex64, big-endian, strided and read-only signals / autocorrelation / coefficient / noise arrays (model line and oracle work from the values converted to float64 - exact; single precision judged at 2e-5); programs of AR_est_LD / AR_est_YW calls on ONE supplied array in every order (op seq: outputs of every call, the array afterwards); keyword arguments of autocorr / autocov (axis on 2-d inputs, all_lags, debias, normalize; op acopt); AR_psd / ar_generator with arguments left at their defaults and integer sigma; a supplied rxx together with a signal; amplitudes 1e-150..1e150 judged against the same input scaled by an exact power of two; nearly singular Toeplitz systems (cond to 1e9, tolerance scaled); a perturbation phase (other options, results overwritten) followed by a re-run of a sample of the cases on fresh objects; every routine is also run in call sequences on the same argument objects (>=3 evaluations in mixed order, results scribbled over, arrays refilled in place; C12: several live analyzers read in interleaved order); cases from one PRNG state: signals real / complex / strongly coloured (AR-filtered noise, pole radius to 0.97), '
+LEAN_TARGETS = ['Nitime.Props.C10', 'Nitime.Props.C10Sparse']
+RULE = ('wave 6: exact (dyadic) autocovariance sequences with a prescribed partial-correlation pattern (white, seasonal AR with a_k != 0 only for k = s, leading / intermediate / trailing zeros, lags 1 and 4, complex seasonal) supplied to both estimators, AR_est_LD also against the model in exact arithmetic (op ldrq), AR_psd on the sparse coefficient sets, zero-stuffed signals on the computed path; round 2: refused / failing calls of every entry point on the same argument objects followed by the ordinary calls against fresh copies (L7), programs of estimator calls with refused calls in between (op seqe), x is rxx, the returned coefficient view consumed by AR_psd / ar_generator (L8); session 3: every entry point also on integer (int16/int32/int64), float32, complex64, big-endian, strided and read-only signals / autocorrelation / coefficient / noise arrays (model line and oracle work from the values converted to float64 - exact; single precision judged at 2e-5); programs of AR_est_LD / AR_est_YW calls on ONE supplied array in every order (op seq: outputs of every call, the array afterwards); keyword arguments of autocorr / autocov (axis on 2-d inputs, all_lags, debias, normalize; op acopt); AR_psd / ar_generator with arguments left at their defaults and integer sigma; a supplied rxx together with a signal; amplitudes 1e-150..1e150 judged against the same input scaled by an exact power of two; nearly singular Toeplitz systems (cond to 1e9, tolerance scaled); a perturbation phase (other options, results overwritten) followed by a re-run of a sample of the cases on fresh objects; every routine is also run in call sequences on the same argument objects (>=3 evaluations in mixed order, results scribbled over, arrays refilled in place; C12: several live analyzers read in interleaved order); cases from one PRNG state: signals real / complex / strongly coloured (AR-filtered noise, pole radius to 0.97), '
         'N in 16..256 (quick) or ..4096 (thorough), orders 1..min(16,N/4); estimators LD and YW with computed and supplied '
         '(biased, unbiased, exact-AR) autocorrelation; AR_psd for sides x parity x real/complex stable coefficient sets; '
         'Gram identity c^H toeplitz(autocorr(x)) c = (1/N) sum |c*x|^2 on real/complex/coloured signals x random, sparse, leading-zero and prediction-error filters (binary64) and on small-integer dyadic signals in exact rational arithmetic (also orders >= N); AR_est_LD vs the exact-rational run of the model with all links of the stability chain evaluated exactly; '
@@ -234,6 +234,9 @@ def run_impl(m):
     if op == 'ldq':
         data = arr_of(m)
         return call(lambda: (ar.AR_est_LD(data, m['order']), canon_est(ar.AR_est_LD(data, m['order'])))[1])
+    if op == 'ldrq':        # a SUPPLIED exact (dyadic) sequence
+        data = arr_of(m)
+        return call(lambda: (ar.AR_est_LD(None, m['order'], rxx=data), canon_est(ar.AR_est_LD(None, m['order'], rxx=data)))[1])
     if op == 'psd':
         ak = arr_of(m, 'ak')
 
@@ -297,6 +300,8 @@ def line_of(m):
         return 'C10 gramq %d %d %s %s' % (m['order'], m['den'], m['xints'], m['cints'])
     if op == 'ldq':
         return 'C10 ldq %d %d %s' % (m['order'], m['den'], m['xints'])
+    if op == 'ldrq':
+        return 'C10 ldrq %d %d %s' % (m['order'], m['den'], m['rints'])
     if op == 'psd':
         return 'C10 psd %d %d %s %s' % (1 if m['one'] else 0, m['nf'], clist([m['sigma']]), m['ak'])
     if op == 'gen':
@@ -538,6 +543,11 @@ def judge_value(m, impl, clause):
                             % (k, np.abs(np.asarray(a3) - a).max(), abs(complex(s3) / 2.0 ** ks - s)))
         if 'true_ak' in m:
             ta = np.array(parse_clist(m['true_ak']))
+            if m.get('struct') and tolf(m) == 1 and (np.abs(ta - a).max() > 1e-10 * max(np.abs(ta).max(), 1.0) * max(1.0, cond)
+                                                  or abs(s - m['true_sigma']) > 1e-10 * m['true_sigma'] * max(1.0, cond)):
+                lag = int(np.argmax(np.abs(ta - a))) + 1
+                return fail('recovery', 'exact (dyadic) autocovariance of %s: coefficient at lag %d off by %.3g, sigma by %.3g'
+                            % (m['struct'], lag, np.abs(ta - a).max(), abs(s - m['true_sigma'])))
             if np.abs(ta - a).max() > 1e-7 * max(np.abs(ta).max(), 1.0) * max(1.0, cond * 1e-2):
                 return fail('recovery', 'exact autocovariance of a stable AR process: coefficients off by %.3g' % np.abs(ta - a).max())
             if abs(s - m['true_sigma']) > 1e-7 * m['true_sigma'] * max(1.0, cond * 1e-2):
@@ -658,7 +668,9 @@ def sequence_judge(m, clause):
             data2 = data[::-1].copy() * 0.5 + data.mean()
             fn = (lambda arr, o: (ar.AR_est_LD if first == 'LD' else ar.AR_est_YW)(arr, o)) if op.endswith('x') else \
                  (lambda arr, o: (ar.AR_est_LD if first == 'LD' else ar.AR_est_YW)(None, o, rxx=arr))
-            if op.endswith('x') or np.linalg.cond(toeplitz_h(data2, p)) < COND_MAX:
+            # the refill is an arbitrary sequence: it must be non-singular at BOTH orders it is used with (structured sequences
+            # with exact zeros reversed are singular at order p-1: a false alarm of the harness, not of the code)
+            if op.endswith('x') or all(np.linalg.cond(toeplitz_h(data2, q)) < COND_MAX for q in (p, max(1, p - 1))):
                 syms = ar_seq.refill_check(fn, data, data2, [p, max(1, p - 1)])
     elif op == 'acopt':
         a, axis = helper_array(m)
@@ -764,6 +776,9 @@ def failure_alias_judge(m, clause):
 def judge(m, impl, clause):
     if m['op'] == 'ldq':          # same routine, same claims as the computed-autocorrelation LD estimate
         m = dict(m, op='ldx')
+        impl = ' '.join(impl.split()[:3])
+    if m['op'] == 'ldrq':         # same routine, same claims as the supplied-autocorrelation LD estimate
+        m = dict(m, op='ld')
         impl = ' '.join(impl.split()[:3])
     f = judge_value(m, impl, clause) or sequence_judge(m, clause)
     if f is None and m.get('l7'):
@@ -953,6 +968,7 @@ def cases(rng, tier, seed):
         sig = float(nrng.choice([1.0, 2.0, 0.25, nrng.uniform(0.1, 5)]))
         m = {'op': 'gen', 'drop': drop, 'sigma': sig, 'coefs': clist(co), 'v': clist(v), 'cplx': cplx}
         out.append(mk_case(m, 'gen/' + ('complex' if cplx else 'real'), cmp_groups('cc')))
+    structured_cases(common.np_rng(PID, seed, 'structured'), big, out, est_case)
     session3_cases(nrng, big, out, est_case)
     seen = {}
     for c in out:                       # round 2: a sample of the estimator cases of every clause also goes through the
@@ -962,6 +978,69 @@ def cases(rng, tier, seed):
             c.meta['l7'] = True
     out += rerun_cases(nrng, out, big)
     return out
+
+
+# ------------------------------------------------------------------ wave 6: structured exact inputs
+def structured_cases(nrng, big, out, est_case):
+    """exact autocovariance sequences with a prescribed partial-correlation pattern, built in exact rational arithmetic from
+    dyadic numbers (`ar_exact.scalar_from_pacf`): white, ONE lag only (seasonal AR: a_k != 0 only for k = s, s = 2, 3, 4),
+    leading / intermediate / trailing zeros, lags 1 and 4, every other lag; complex seasonal sequences r(sk) = beta^k r(0);
+    for both estimators with the sequence supplied (`rxx=`), `AR_est_LD` also against the model in exact arithmetic (op
+    ldrq), `AR_psd` on the sparse coefficient sets, and both estimators on zero-stuffed signals (computed path)."""
+    import ar_exact
+    n = 36 if not big else 400
+    for i in range(n):
+        kind = ar_exact.SCALAR_KINDS[i % len(ar_exact.SCALAR_KINDS)]
+        order = int(nrng.randint(2, 9)) if i % 7 else 1
+        blk = ar_exact.scalar_block(nrng, order, kind)
+        r = np.array([float(m_[0][0]) for m_ in blk['R']])
+        exact = ar_exact.is_exact(blk['R'])
+        ak = np.array([float(c_[0][0]) for c_ in blk['C']])
+        sig = float(blk['V'][0][0])
+        pw = int(nrng.choice([0, 0, -30, 17]))
+        r = r * 2.0 ** pw
+        extra = {'true_ak': clist(ak), 'true_sigma': sig * 2.0 ** pw, 'psd_valid': True, 'struct': 'pacf ' + kind, 'exact_input': bool(exact)}
+        for op in ('ld', 'yw'):
+            est_case(op, r, order, False, 'est/%s/supplied/structured/%s' % (op.upper(), kind), extra)
+        cond = np.linalg.cond(toeplitz_h(r.astype(complex), order))
+        if cond < COND_MAX:
+            den, ints = ar_exact.dyadic_ints(r)
+            m = dict(extra, op='ldrq', order=order, den=den, rints=','.join('%d,0' % v for v in ints), data=clist(r), cplx=False)
+            out.append(mk_case(m, 'est/LD/supplied/structured/%s/exact-arithmetic' % kind, cmp_ldq(abs(r[0]), float(cond))))
+        # the model spectrum of the sparse coefficient set
+        nf = int(nrng.choice([4, 5, 8, 9, 16, 33]))
+        m = {'op': 'psd', 'one': bool(i % 2), 'nf': nf, 'sigma': sig, 'ak': clist(ak), 'cplx': False}
+        out.append(mk_case(m, 'psd/structured/%s/%s' % ('onesided' if i % 2 else 'twosided', 'odd' if nf % 2 else 'even'), cmp_groups('ff')))
+    # complex seasonal sequences: r(sk) = beta^k r(0), every other lag exactly zero
+    for i in range(12 if not big else 100):
+        s_ = int(nrng.choice([2, 3, 4]))
+        order = int(nrng.randint(s_, 9))
+        beta = complex(int(nrng.randint(-3, 4)) / 8.0, int(nrng.choice([-3, -2, -1, 1, 2, 3])) / 8.0)
+        r0 = float(nrng.choice([1.0, 2.0, 0.5]))
+        r = np.zeros(order + 1, complex)
+        r[0] = r0
+        for k in range(s_, order + 1, s_):
+            r[k] = beta * r[k - s_]
+        ak = np.zeros(order, complex)
+        ak[s_ - 1] = beta
+        extra = {'true_ak': clist(ak), 'true_sigma': r0 * (1 - abs(beta) ** 2), 'psd_valid': True, 'struct': 'complex seasonal s=%d' % s_}
+        for op in ('ld', 'yw'):
+            est_case(op, r, order, True, 'est/%s/supplied/structured/complex-seasonal' % op.upper(), extra)
+        den, ints = ar_exact.dyadic_ints(np.c_[r.real, r.imag].reshape(-1))
+        cond = np.linalg.cond(toeplitz_h(r, order))
+        m = dict(extra, op='ldrq', order=order, den=den, rints=','.join(str(v) for v in ints), data=clist(r), cplx=True)
+        out.append(mk_case(m, 'est/LD/supplied/structured/complex-seasonal/exact-arithmetic', cmp_ldq(abs(r[0]), float(cond))))
+    # zero-stuffed signals: the computed autocorrelation vanishes (up to the FFT's round-off) at every lag not a multiple of s
+    for i in range(8 if not big else 60):
+        s_ = int(nrng.choice([2, 3, 4]))
+        cplx = bool(i % 2)
+        N = int(nrng.choice([32, 64, 100]))
+        x0 = gen_signal(nrng, N, 'coloured-complex' if cplx else 'coloured-real')
+        x = np.zeros(N * s_, x0.dtype)
+        x[::s_] = x0
+        order = int(nrng.randint(s_, 2 * s_ + 2))
+        for op in ('ldx', 'ywx'):
+            est_case(op, x, order, cplx, 'est/%s/computed/structured/zero-stuffed' % op[:2].upper(), {'psd_valid': True})
 
 
 # ------------------------------------------------------------------ session 3: input families, options, boundaries, histories
